@@ -240,6 +240,10 @@ def run_property(pid, tier, seed):
         rep.trusted.extend(env.trusted)
         if hasattr(mod, 'extra'):
             mod.extra(rep, tier, seed, budget)
+        # the composition step shared by several properties: _handle_pull_request under contract
+        from specs import hpr
+        if pid in hpr.PROPS:
+            hpr.run_for(rep, pid, budget)
     except Exception:
         rep.errors.append(traceback.format_exc())
     finally:
